@@ -81,4 +81,12 @@ def obligations(tier, seed):
                         obs.append({"name": "equiv0/k=%s/%s/rule=%d/zero-work-auto" % (profiles.KN[k], layout, rule), "harness": "equiv", "cube": {"spec": spec, "w1": 0, "zero_auto": True},
                                     "params": [["w0", 0, 2], ["w2", 0, 2], ["pa0", 0, 5], ["pa1", 0, 8]], "pre": "pa0 < pa1",
                                     "timeout": 900 if thorough else 150, "engine": "zsym"})
-    return profiles.split_param(obs, "pa0", only_if=lambda ob: ob["harness"] == "equiv" and not thorough and False) if False else obs
+    # a task that several workers can share, competing with a chain for a worker who is eligible for both
+    for rule in ((0, 4) if not thorough else range(9)):
+        spec = {"tasks": [{"w": "$w0"}, {"w": "$w1"}, {"w": "$w2"}], "edges": [[0, 2, 0]],
+                "teams": [{"targets": [0, 1, 2], "workers": [{"skills": {"1": 1}}, {"skills": {"0": 1, "1": 1, "2": 1}}]}],
+                "run": {"max_time": 24, "abs": ["$pa0", "$pa1"], "flag": False, "rule": rule}}
+        obs.append({"name": "equiv/helper/rule=%d" % rule, "harness": "equiv", "cube": {"spec": spec},
+                    "params": [["w0", 1, 3], ["w1", 2, 8 if thorough else 6], ["w2", 1, 2], ["pa0", 0, 5], ["pa1", 0, 9]], "pre": "pa0 < pa1",
+                    "timeout": 900 if thorough else 150, "engine": "zsym"})
+    return profiles.split_param(obs, "pa0", only_if=lambda ob: "helper" in ob["name"])
